@@ -323,6 +323,13 @@ struct tuple<> {
 template <typename... Ts>
 tuple(Ts...) -> tuple<Ts...>;
 
+/// \brief Swaps the contents of lhs and rhs. Equivalent to lhs.swap(rhs).
+template <typename... Ts>
+constexpr auto swap(tuple<Ts...>& lhs, tuple<Ts...>& rhs) noexcept(noexcept(lhs.swap(rhs))) -> void
+{
+    lhs.swap(rhs);
+}
+
 template <etl::size_t I, typename... Ts>
 struct tuple_element<I, tuple<Ts...>> {
     static_assert(I < sizeof...(Ts));
